@@ -129,6 +129,24 @@ func Load(o Options) (*Prog, error) {
 		return a.String() < b.String()
 	})
 	p.indexSingleCallers()
+	fwCache := map[string]bool{}
+	fieldWritersOutsideLiterals = func(t *types.Named, field string) bool {
+		if t.Obj().Pkg() == nil {
+			return true
+		}
+		key := t.Obj().Pkg().Path() + "." + t.Obj().Name() + "." + field
+		if v, ok := fwCache[key]; ok {
+			return v
+		}
+		res := false
+		for _, w := range p.FieldWrites(RelPkg(t.Obj().Pkg().Path()), t.Obj().Name(), field) {
+			if w.Kind != "literal" {
+				res = true
+			}
+		}
+		fwCache[key] = res
+		return res
+	}
 	ehCache := map[*ssa.Function]map[string]bool{}
 	entryHeldOf = func(fn *ssa.Function) map[string]bool {
 		if fn == nil || fn.Parent() != nil || fn.Object() == nil || fn.Object().Exported() {
@@ -166,8 +184,17 @@ func (p *Prog) indexSingleCallers() {
 			}
 		}
 	}
+	methodValueSites = map[*ssa.Function][]*ssa.MakeClosure{}
 	for _, fn := range p.Funcs {
+		if fn.Synthetic != "" {
+			continue // wrappers (bound methods, thunks) are not callers in their own right
+		}
 		Instrs(fn, func(in ssa.Instruction) {
+			if mc, ok := in.(*ssa.MakeClosure); ok {
+				if m := BoundMethod(mc); m != nil {
+					methodValueSites[m] = append(methodValueSites[m], mc)
+				}
+			}
 			var callee *ssa.Function
 			if ci, ok := in.(ssa.CallInstruction); ok {
 				c := ci.Common()
@@ -224,6 +251,20 @@ func (p *Prog) indexSingleCallers() {
 
 var singleCaller map[*ssa.Function]ssa.CallInstruction
 var allSites map[*ssa.Function][]ssa.CallInstruction
+var methodValueSites map[*ssa.Function][]*ssa.MakeClosure
+
+// MethodValueSites lists the places where method m is turned into a function value
+// (`x.m` without a call): the closures over its bound-method wrapper.
+func MethodValueSites(m *ssa.Function) []*ssa.MakeClosure { return methodValueSites[m] }
+
+// FuncValueSites lists the instructions that create the function value of f: the
+// MakeClosure of a function literal, or the method-value closures of a method.
+func FuncValueSites(f *ssa.Function) []*ssa.MakeClosure {
+	if f.Parent() != nil {
+		return ClosureSites(f)
+	}
+	return methodValueSites[f]
+}
 
 // StaticCallSites returns every call site of an unexported repository function that is
 // only ever called statically (never used as a value, not reachable through an
@@ -240,6 +281,13 @@ func ParamArg(x *ssa.Parameter) ssa.Value {
 	fn := x.Parent()
 	ci := singleCaller[fn]
 	if ci == nil {
+		// a method only ever used as a method value, at one place: its receiver is the
+		// value bound there (closures turned into methods of a small state struct)
+		if fn.Signature.Recv() != nil && len(fn.Params) > 0 && fn.Params[0] == x && len(allSites[fn]) == 0 && fn.Object() != nil && !fn.Object().Exported() {
+			if mv := methodValueSites[fn]; len(mv) == 1 && len(mv[0].Bindings) == 1 {
+				return mv[0].Bindings[0]
+			}
+		}
 		return nil
 	}
 	c := ci.Common()
